@@ -751,6 +751,10 @@ qb_vsnprintf_deserialize(char *string, size_t str_len, const char *buf)
 		fmt[fmt_pos++] = *format;
 		format++;
 reprocess:
+		if (fmt_pos > MINI_FORMAT_STR_LEN - 2) {
+			/* directive too long for the scratch format: stop decoding */
+			return location;
+		}
 		switch (format[0]) {
 		case '#': /* alternate form conversion, ignore */
 		case '-': /* left adjust, ignore */
